@@ -58,7 +58,13 @@ func (f funcMapType[V]) Iter(yield func(key string, v Value) bool) {
 }
 
 func (f funcMapType[V]) Size() int {
-	return len(f.mff.keys)
+	n := 0
+	for _, k := range f.mff.keys {
+		if _, ok := f.mff.fMap(f.value, k); ok {
+			n++
+		}
+	}
+	return n
 }
 
 type emptyMapStorage struct {
